@@ -1281,6 +1281,26 @@ def scan(repo):
     for f in crate.files:
         for m in UNKNOWN_FAMILIES.finditer(f.code):
             crate.problems.append((f.rel, f.line(m.start()), "", f"unknown hash container family `{m.group(1)}`"))
+    # process-wide / per-thread mutable state: a result that reads it depends on what ran before on that thread or process
+    # (found by seeded change C18f: a `thread_local!` search hint inside `interp1d`). Every such item outside the
+    # `verif-hooks` observer modules is reported as a problem, i.e. becomes an `unreviewed` pseudo-site.
+    hook_regions = {}
+    for f in crate.files:
+        regs = []
+        for m in re.finditer(r'#\[cfg\(feature\s*=\s*"verif-hooks"\)\]\s*(?:pub\s+)?mod\s+\w+\s*\{', f.code):
+            try:
+                regs.append((m.start(), match_close(f.code, m.end() - 1)))
+            except ScanProblem:
+                regs.append((m.start(), len(f.code)))
+        hook_regions[f.rel] = regs
+    GLOBAL_STATE = re.compile(
+        r"\bthread_local!|\blazy_static!|\bstatic\s+mut\b|"
+        r"\bstatic\s+(?:ref\s+)?[A-Z_][A-Z0-9_]*\s*:[^;=]*\b(?:Mutex|RwLock|Atomic\w*|Cell|RefCell|OnceCell|OnceLock|Lazy|LazyLock|LazyCell)\b")
+    for f in crate.files:
+        for m in GLOBAL_STATE.finditer(f.code):
+            if any(a <= m.start() <= b for (a, b) in hook_regions.get(f.rel, [])):
+                continue
+            crate.problems.append((f.rel, f.line(m.start()), "", "global mutable state `%s`: results may depend on thread / call history" % squash(m.group(0))[:60]))
     # names that denote hash containers somewhere (for the unresolved fallback)
     for defs in crate.structs.values():
         for sd in defs:
